@@ -25,6 +25,59 @@ func bodyNoComments(f *Facts, dir, name string) string {
 	return oneLine(strings.Join(out, " "))
 }
 
+// stmtsNoHooks is the canonical source of a function's top-level statements joined by " ; ", without
+// `//` comments and without the verification hook calls (`verifC37…(…)`).
+func stmtsNoHooks(f *Facts, dir, name string) string {
+	fd := f.FuncDecl(dir, name)
+	if fd == nil || fd.Body == nil {
+		return "<missing>"
+	}
+	var out []string
+	for _, st := range fd.Body.List {
+		if es, ok := st.(*ast.ExprStmt); ok {
+			if c, ok := es.X.(*ast.CallExpr); ok {
+				if id, ok := c.Fun.(*ast.Ident); ok && strings.HasPrefix(id.Name, "verifC37") {
+					continue
+				}
+			}
+		}
+		var lines []string
+		for _, l := range strings.Split(f.Src(st), "\n") {
+			if i := strings.Index(l, "//"); i >= 0 {
+				l = l[:i]
+			}
+			lines = append(lines, l)
+		}
+		out = append(out, oneLine(strings.Join(lines, " ")))
+	}
+	return strings.Join(out, " ; ")
+}
+
+// c35Pinned: the small builder methods the model transliterates line by line, with the source text
+// the transliteration was made from.  (utf16RuneLen, clampEntities and entitySorter.Less are not
+// pinned: they are translated.)
+var c35Pinned = [][2]string{
+	{"Builder.Token", "return Token{ utf8offset: b.UTF8Len(), utf16offset: b.UTF16Len(), }"},
+	{"Token.Apply", "builder.appendEntities(t.utf16offset, t.UTF16Length(builder), utf8entity{ offset: t.utf8offset, length: t.UTF8Length(builder), }, f...)"},
+	{"Token.UTF16Length", "return builder.UTF16Len() - t.utf16offset"},
+	{"Token.UTF8Length", "return builder.UTF8Len() - t.utf8offset"},
+	{"Builder.UTF16Len", "return b.utf16length"},
+	{"Builder.UTF8Len", "return b.message.Len()"},
+	{"Builder.Plain", "_, _ = b.WriteString(s) ; b.lastFormatIndex = len(b.entities) ; return b"},
+	{"Builder.Format", "return b.appendMessage(s, formats...)"},
+	{"Builder.Reset", "b.message.Reset() ; b.entities = nil ; b.utf16length = 0"},
+	{"Builder.appendEntities", "b.lastFormatIndex = len(b.entities) ; for i := range formats { b.entities = append(b.entities, formats[i](offset, length)) b.lengths = append(b.lengths, u) } ; return b"},
+	{"Builder.appendMessage", "if s == \"\" { return b } ; s = validString(s) ; offset := b.utf16length ; length := ComputeLength(s) ; b.appendEntities(offset, length, utf8entity{ offset: b.message.Len(), length: len(s), }, formats...) ; _, _ = b.WriteString(s) ; return b"},
+	{"Builder.WriteString", "if !utf8.ValidString(s) { _, err := b.WriteString(validString(s)) return len(s), err } ; n, err := b.message.WriteString(s) ; b.utf16length += ComputeLength(s) ; return n, err"},
+	{"Builder.Write", "if !utf8.Valid(s) { _, err := b.Write(bytes.ToValidUTF8(s, []byte(replacement))) return len(s), err } ; n, err := b.message.Write(s) ; b.utf16length += ComputeLengthBytes(s) ; return n, err"},
+	{"Builder.WriteRune", "n, err := b.message.WriteRune(s) ; b.utf16length += utf16RuneLen(s) ; return n, err"},
+	{"Builder.WriteByte", "err := b.message.WriteByte(s) ; b.utf16length++ ; return err"},
+	{"Builder.Raw", "msg := b.message.String() ; entities := b.entities ; b.Reset() ; return msg, entities"},
+	{"Builder.ShrinkPreCode", "b.entities = shrinkPreCode(b.entities)"},
+	{"equalRange", "return a.GetLength() == b.GetLength() && a.GetOffset() == b.GetOffset()"},
+	{"shrinkPreCode", "for i, j := 0, len(entities)-1; i < j; i, j = i+1, j-1 { entities[i], entities[j] = entities[j], entities[i] } ; filter := func(keep func(prev, cur tg.MessageEntityClass) bool) []tg.MessageEntityClass { n := 0 for i, val := range entities { if i == 0 || keep(entities[i-1], val) { entities[n] = val n++ } } return entities[:n] } ; isPreCode := func(class tg.MessageEntityClass) bool { typeID := class.TypeID() return typeID == tg.MessageEntityCodeTypeID || typeID == tg.MessageEntityPreTypeID } ; hasLang := func(class tg.MessageEntityClass) bool { pre, ok := class.(*tg.MessageEntityPre) return ok && pre.Language != \"\" } ; resetLang := func(class tg.MessageEntityClass) { pre, ok := class.(*tg.MessageEntityPre) if !ok { return } pre.Language = \"\" } ; return filter(func(prev, cur tg.MessageEntityClass) bool { if !isPreCode(prev) || !isPreCode(cur) || prev.TypeID() == cur.TypeID() { return true } if !equalRange(prev, cur) { resetLang(prev) resetLang(cur) return true } return !hasLang(prev) })"},
+}
+
 // C35EntityFacts are the facts shared by C35 and C37 (same builder model).
 func C35EntityFacts(f *Facts) {
 	// --- utf16RuneLen: the two local constants and the shape of the test
@@ -110,6 +163,15 @@ func C35EntityFacts(f *Facts) {
 		})
 	}
 	f.Bool("clampToCutMessage", clampArg == "ComputeLength(msg)", "fixEntities: `msg = msg[:offset+len(trimmed)]` is followed by clampEntities("+clampArg+", entities)")
+	// --- the small methods the model transliterates: which of them still read as when it was written
+	var changed []string
+	for _, p := range c35Pinned {
+		if stmtsNoHooks(f, c35PkgDir, p[0]) != p[1] {
+			changed = append(changed, strconv.Quote(p[0]))
+		}
+	}
+	f.Raw("def changedBuilderMethods : List String := [" + strings.Join(changed, ", ") + "] -- transliterated methods whose source differs from the text the model was written from")
+	f.Nat("pinnedBuilderMethods", len(c35Pinned), "number of transliterated methods compared")
 	// --- the comparator used by Complete's sort (translator: harness/hc/c36_less.go)
 	C36LessFacts(f, c35PkgDir)
 	// --- fixEntities trims with strings.TrimRightFunc(.., unicode.IsSpace); Complete = fixEntities + SortEntities
